@@ -34,6 +34,7 @@ RULE = ('images generated per format from trait vectors (each of the 64 qcow2 in
         'InspectWrapper and through cli.main (in-process + real subprocess sample); injected exceptions in every '
         'registered check. non-trivial = MUST-REJECT or MUST-ACCEPT case; distinct by (spec, path, schedule)')
 REQUIRED_CLAUSES = ['must-reject', 'must-accept', 'responsible-check-named', 'fault-in-check-is-failure',
+                    'fault-inside-check-code-is-failure',
                     'cli-exit-status', 'cli-subprocess', 'mbr-family', 'only-documented-exceptions',
                     'no-safety-check-declared']
 ASSUMPTIONS = ['reference verdict derived from the trait vector the generator used, per the statement\'s own list',
@@ -300,6 +301,88 @@ def eval_fault(ctx, case):
         ctx.fail('fault-not-sticky', case, {'check': target})
 
 
+# ----------------------------------------------------------------------
+# line-level failpoints inside the real check functions (an error *inside* a check)
+# ----------------------------------------------------------------------
+_LP = {'installed': False, 'armed': False, 'n': 0, 'k': None, 'fired': None}
+LINE_TOOL = 3
+
+
+class InjectedInCheck(Exception):
+    pass
+
+
+def _line_cb(code, line):
+    if not _LP['armed']:
+        return None
+    _LP['n'] += 1
+    if _LP['n'] == _LP['k']:
+        _LP['fired'] = '%s:%d' % (code.co_qualname, line)
+        raise InjectedInCheck('line-failpoint %s' % _LP['fired'])
+    return None
+
+
+CHECK_FUNCS = ['QcowInspector.check_backing_file', 'QcowInspector.check_unknown_features', 'QcowInspector.check_data_file',
+               'VMDKInspector.check_descriptor', 'VMDKInspector.check_footer', 'VMDKInspector._parse_sparse_header',
+               'GPTInspector.check_mbr_partitions', 'LUKSInspector.check_version', 'LUKSInspector.header_items']
+
+
+def install_line_failpoints():
+    if _LP['installed']:
+        return
+    F = sl.fi()
+    mon = sys.monitoring
+    try:
+        mon.use_tool_id(LINE_TOOL, 'verif-check-failpoints')
+    except ValueError:
+        pass
+    mon.register_callback(LINE_TOOL, mon.events.LINE, _line_cb)
+    for q in CHECK_FUNCS:
+        cls, fn = q.split('.')
+        obj = getattr(F, cls).__dict__[fn]
+        obj = obj.fget if isinstance(obj, property) else obj
+        mon.set_local_events(LINE_TOOL, obj.__code__, mon.events.LINE)
+    _LP['installed'] = True
+
+
+def eval_linefault(ctx, case):
+    """Raise at the k-th line executed inside the real check functions of a clean, fully fed inspector."""
+    F = sl.fi()
+    install_line_failpoints()
+    data, name, verdict, resp, truth = reference(case['spec'])
+    cls = F.ALL_FORMATS[name]
+    res = sl.feed(cls, data, [], monitor=False)
+    insp = res['inspector']
+    ctx.case(('linefault', case['spec']['gen'], repr(case['spec'].get('params')), case['k']))
+    if sl.safety_outcome(insp) != 'pass':
+        ctx.fail('fault-baseline-clean-image-rejected', case, {})
+        return
+    _LP.update(n=0, k=case['k'], fired=None, armed=True)
+    try:
+        try:
+            insp.safety_check()
+            out = ('pass', None)
+        except F.SafetyCheckFailed as e:
+            out = ('failed', e)
+        except BaseException as e:  # noqa
+            out = ('raised', e)
+    finally:
+        _LP['armed'] = False
+    if _LP['fired'] is None:
+        ctx.h('line failpoint in checks', 'k beyond the lines executed (no injection)')
+        if out[0] != 'pass':
+            ctx.fail('fault-linepoint-no-injection-but-rejected', case, {'outcome': out[0]})
+        return
+    ctx.clause('fault-inside-check-code-is-failure')
+    ctx.h('line failpoint in checks', _LP['fired'])
+    if out[0] != 'failed' or len(out[1].failures) != 1:
+        ctx.fail('fault-inside-check-code-is-failure', case,
+                 {'fired': _LP['fired'], 'outcome': out[0], 'exc': out[1],
+                  'failures': sorted(getattr(out[1], 'failures', {}))})
+    if sl.safety_outcome(insp) != 'pass':
+        ctx.fail('fault-not-sticky', case, {'fired': _LP['fired']})
+
+
 def eval_nocheck(ctx, case):
     """An inspector that declares no safety check must be impossible to construct."""
     F = sl.fi()
@@ -343,6 +426,8 @@ def evaluate(ctx, case):
         eval_fault(ctx, case)
     elif k == 'nocheck':
         eval_nocheck(ctx, case)
+    elif k == 'linefault':
+        eval_linefault(ctx, case)
     elif k == 'mbr':
         eval_mbr(ctx, case)
 
@@ -545,6 +630,11 @@ def run(ctx):
                 if mine():
                     eval_fault(ctx, {'kind': 'fault', 'spec': spec, 'check_index': ci, 'exc': exc})
     ctx.exhaustive['every registered check of every inspector x exception pool'] = True
+    for spec in clean[:4] + clean[8:11]:
+        for k in range(1, 60):
+            if mine():
+                eval_linefault(ctx, {'kind': 'linefault', 'spec': spec, 'k': k})
+    ctx.exhaustive['every line executed inside the real check functions of the clean qcow2/vmdk/gpt/mbr/luks images'] = True
     # ---- trait vectors
     rng = ctx.rng('traits')
     specs = []
